@@ -217,9 +217,6 @@ func (c *chunkedSyncClient) SyncStreamingParts(ctx context.Context, parts []queu
 		result := finalResp.GetSyncResult()
 		success = result.Success
 	}
-	if !success && len(failedParts) < len(parts) {
-		success = true
-	}
 
 	if success {
 		if c.metrics != nil {
